@@ -55,7 +55,28 @@ Plans2b == { [id |-> 2000 + f, pools |-> <<SmallPlan(f), SmallPlan(6)>>, cancel 
 
 Plans1NC == {pl \in Plans1 : ~pl.cancel}
 Plans1C == {pl \in Plans1 : pl.cancel}
-AllPlans == Plans1 \cup Plans2 \cup Plans2b
+\* quick tier: every fault without user cancel on the schedule-end shape, the clean run on the other shape
+QuickPlans == {pl \in Plans1NC : pl.pools[1].shape = "sched-end" \/ pl.pools[1].fault \in {"none", "agg-drop-on-cancel", "prov-at-the-very-end"}}
+\* thorough tier: every plan without cancel + user cancel at any step for these faults
+CancelFaults == {"none", "prov-mid-run", "prov-at-the-very-end", "agg-drop-on-cancel", "newgun-later", "panic-later", "sched-shared"}
+ThoroughPlans == Plans1NC \cup {pl \in Plans1C : pl.pools[1].fault \in CancelFaults /\ pl.pools[1].shape = "out-of-ammo"}
+\* liveness is checked on a representative subset (TLC's liveness checking is sequential)
+LiveFaults == {"none", "prov-at-the-very-end", "agg-drop-on-cancel", "sched-shared", "newgun-later", "bind-first",
+               "warmup-fails", "panic-later", "prov-before-first-ammo"}
+LivePlans == {pl \in Plans1 : ~pl.cancel /\ pl.pools[1].fault \in LiveFaults}
+\* quick tier
+LivePlansQ == {pl \in Plans1 : ~pl.cancel /\ pl.pools[1].shape = "sched-end"
+                               /\ pl.pools[1].fault \in {"agg-drop-on-cancel", "sched-shared"}}
+\* one small pool with a user cancel at any step (liveness with cancel; promptness of a cancelled Run)
+PlansSC == { [id |-> 3000 + f, pools |-> <<SmallPlan(f)>>, cancel |-> TRUE] : f \in {1, 3, 5, 6, 10} }
+LivePlansC == {pl \in Plans1 : pl.pools[1].fault \in {"none", "agg-drop-on-cancel", "prov-mid-run"} /\ pl.pools[1].shape = "sched-end"}
+PromptPlans == PlansSC
+PromptPlansQ == {pl \in PlansSC : pl.id = 3001}
+Plans2NC == {pl \in Plans2 : ~pl.cancel}
+\* two pools, exhaustive: a handful of faults in either pool, and both pools failing
+Plans2Q == {pl \in Plans2NC : \E p \in 1..2 : pl.pools[p].fault \in {"prov-mid-run", "agg-drop-on-cancel", "sched-shared", "panic-first"}}
+           \cup {pl \in Plans2b : pl.pools[1].fault \in {"prov-mid-run", "sched-shared"}}
+AllPlans == PlansSC \cup Plans1 \cup Plans2 \cup Plans2b
 OnePlan == {pl \in Plans1 : pl.id = 1}
 \* negative controls need only the plans that trigger the defect
 SchedSharedPlans == {pl \in Plans1 : pl.pools[1].fault = "sched-shared"}
